@@ -1,0 +1,21 @@
+//go:build verif
+
+// Contracts for gzv (contract-based deductive verification, /verif). Comment-only file.
+package fx
+
+// C05 worker cap of Stream.Walk: a slot of the pool channel (capacity = workers) is taken before each worker is launched
+// and given back by that worker on every exit.
+//@ func (s Stream) walkLimited closure 0
+//@   property C05
+//@   flag callbacks_noheap private_channels
+//@   requires option.workers >= 1
+//@   ghost at begin loop 0: l0 = chanLen(pool)
+//@   call GoSafe#0: assert chanLen(pool) == l0 + 1 && chanLen(pool) <= chanCap(pool)
+//@   loop 0: invariant chanCap(pool) == option.workers && option.workers >= 1
+
+//@ func (s Stream) walkLimited closure 1
+//@   property C05
+//@   flag callbacks_noheap private_channels
+//@   requires chanLen(pool) >= 1
+//@   ensures  chanLen(pool) == old(chanLen(pool)) - 1 && calls(fn) == old(calls(fn)) + 1
+//@   ensures_panic chanLen(pool) == old(chanLen(pool)) - 1
